@@ -206,8 +206,9 @@ Definition cert_eqb (a b : cert) : bool :=
   && N.eqb (c_aux a) (c_aux b).
 
 (* [genesis_witness_fixed]: the key witness counted for a genesis key delegation (kind 5) is the genesis
-   DELEGATE hash in the original code (certificates_builder.rs:268) and the genesis key hash after
-   fixes/C18-genesis-delegation-witness.patch ([true]).  The switch mirrors the tree the check runs on. *)
+   DELEGATE hash in the code (certificates_builder.rs:268, [false]); the ledger asks for the GENESIS key
+   ([true] = fixes/C18-genesis-delegation-witness.patch, NOT applied: a test of the baseline suite pins the
+   delegate hash; known finding C18-genesis-delegation-witness). *)
 Definition genesis_witness_fixed : bool := false.
 
 (* witness_keys_for_cert *)
@@ -278,13 +279,13 @@ Definition vote_accepts (op : vote_op) : bool :=
 Definition votes_run (ops : list vote_op) : list vote_op := first_wins voter_eqb (filter vote_accepts ops).
 
 (* [votes_count_plutus_signers], [mint_counts_declared], [proposals_count_signers], [collateral_boots_counted]:
-   switches between the original code and the code after fixes/C18-*.patch (see known_findings.d/C18.json);
-   [true] = repaired behaviour.  The model, the judge and the theorems read the switches; the *_refuted
-   lemmas speak about the original behaviour. *)
-Definition votes_count_plutus_signers : bool := false.
-Definition mint_counts_declared : bool := false.
-Definition proposals_count_signers : bool := false.
-Definition collateral_boots_counted : bool := false.
+   switches between the original code ([false]) and the code after the four fix commits of
+   known_findings.d/C18.json ([true], the tree the check runs on).  The model reads the switches; the
+   *_refuted lemmas of WitnessProofs.v speak about the original behaviour. *)
+Definition votes_count_plutus_signers : bool := true.
+Definition mint_counts_declared : bool := true.
+Definition proposals_count_signers : bool := true.
+Definition collateral_boots_counted : bool := true.
 
 (* VotingBuilder::get_required_signers: the voter's key and, originally, only native-script signers *)
 Definition votes_required_signers_gen (fixed : bool) (st : list vote_op) : list key :=
